@@ -27,6 +27,21 @@ def mutants_for(pid):
     return out
 
 
+def benign_for(pid):
+    """behaviour-preserving edits on which the check must stay silent"""
+    out = []
+    sd = os.path.join(VERIF, "benign")
+    if os.path.isdir(sd):
+        for d in sorted(os.listdir(sd)):
+            mp = os.path.join(sd, d, "meta.json")
+            pp = os.path.join(sd, d, "patch.diff")
+            if os.path.exists(mp) and os.path.exists(pp):
+                m = json.load(open(mp))
+                if m.get("property") == pid:
+                    out.append((d, pp, m))
+    return out
+
+
 def _sh(cmd, cwd=None, env=None):
     return subprocess.run(cmd, cwd=cwd, env=env, stdout=subprocess.PIPE, stderr=subprocess.STDOUT, text=True)
 
@@ -57,8 +72,9 @@ def cleanup(repo):
 
 def run(ck, pid, repo="/repo"):
     muts = mutants_for(pid)
+    ben = benign_for(pid)
     res = []
-    if not muts:
+    if not muts and not ben:
         ck.extra["sensitivity"] = []
         ck.note("thorough: no seeded change registered for this property")
         return
@@ -86,8 +102,28 @@ def run(ck, pid, repo="/repo"):
                             reported=[l.strip()[:300] for l in lines][:4], wall_s=round(time.time() - t0, 1),
                             needs=meta.get("needs_to_manifest", "")[:200]))
             print("thorough: seeded change %s -> %s" % (name, res[-1]["status"]))
+        for name, patch, meta in ben:
+            t0 = time.time()
+            _sh(["git", "-C", SCRATCH, "checkout", "--", "."])
+            a = _sh(["git", "-C", SCRATCH, "apply", patch])
+            if a.returncode != 0:
+                res.append(dict(benign=name, status="skipped", why="patch no longer applies"))
+                continue
+            env = dict(os.environ)
+            env["VERIF_REPO"] = SCRATCH
+            env["VERIF_NO_EVIDENCE"] = "1"
+            env["VERIF_TIER"] = "quick"
+            r = _sh([sys.executable, os.path.join(VERIF, "check"), pid, "--tier", "quick"], cwd=VERIF, env=env)
+            silent = r.returncode == 0 and not any(l.startswith("VIOLATION") for l in r.stdout.splitlines())
+            lines = [l.strip()[:300] for l in r.stdout.splitlines() if l.startswith("  rule=")]
+            res.append(dict(benign=name, status="silent" if silent else ("build-failed" if r.returncode not in (0, 1) else "FALSE-ALARM"),
+                            reported=lines[:4], wall_s=round(time.time() - t0, 1), what=meta.get("summary", "")[:200]))
+            print("thorough: behaviour-preserving edit %s -> %s" % (name, res[-1]["status"]))
     finally:
         cleanup(repo)
     ck.extra["sensitivity"] = res
     nd = sum(1 for r in res if r["status"] == "detected")
-    ck.note("thorough: %d of %d seeded changes for %s detected on a scratch copy" % (nd, len(res), pid))
+    ns = sum(1 for r in res if "seed" in r)
+    nb = sum(1 for r in res if "benign" in r)
+    nq = sum(1 for r in res if r["status"] == "silent")
+    ck.note("thorough: %d of %d seeded changes for %s detected on a scratch copy; silent on %d of %d behaviour-preserving edits" % (nd, ns, pid, nq, nb))
